@@ -15,7 +15,7 @@ import string as _string
 
 import z3
 
-from . import smt
+from . import smt, structstr
 from .smt import B, I, Obj, S, fresh
 from .values import (
     UNDEF,
@@ -420,6 +420,13 @@ class Engine:
         for v, st in outs:
             if isinstance(v, Raise):
                 res.append((v, st))
+            elif self.mode == "exec" and self.abort_paths:
+                # a construct outside the subset ends THIS branch only: it travels up like an exception no handler catches ("<abort>") and becomes the abort of
+                # its path at statement level; sibling branches of the same statement go on
+                try:
+                    res.extend(f(v, st))
+                except Unsupported as e:
+                    res.append((Raise(Exc("<abort>", str(e))), st))
             else:
                 res.extend(f(v, st))
         return res
@@ -804,6 +811,16 @@ class Engine:
             for b in (lo, hi):
                 if b is not None and pytype_name(b) not in ("int", "bool"):
                     return [(Raise(Exc("TypeError", "slice indices must be integers")), st)]
+            if isinstance(c, Sym):
+                # a text with a literal skeleton ("  x (" ++ T ++ "): " ++ D) sliced at bounds that are positions of that skeleton: the slice is the
+                # corresponding sub-skeleton (exact; see structstr.py)
+                ps = structstr.parts(to_term(c))
+                if len(ps) > 1:
+                    lp = None if lo is None else structstr.locate(ps, lo.t if isinstance(lo, Sym) else lo)
+                    hp = None if hi is None else structstr.locate(ps, hi.t if isinstance(hi, Sym) else hi)
+                    if (lo is None or lp is not None) and (hi is None or hp is not None):
+                        r = structstr.build(structstr.slice_parts(ps, lp, hp))
+                        return [(r if isinstance(r, str) else Sym(r, "str"), st)]
             pre = smt.literal_prefix(to_term(c)) if isinstance(c, Sym) else None
             if pre is not None and isinstance(hi, int) and not isinstance(hi, bool) and (lo is None or (isinstance(lo, int) and not isinstance(lo, bool))) \
                     and 0 <= (lo or 0) and 0 <= hi <= len(pre):
@@ -1002,7 +1019,63 @@ class Engine:
         raise Unsupported("attribute %s of %r" % (name, v))
 
     # ------------------------------------------------------------------ calls
+    def _first_index_pattern(self, node):
+        """next(idx for idx, ch in enumerate(X) if ch == "c")  ->  (X node, "c"), else None"""
+        if not (isinstance(node.func, ast.Name) and node.func.id == "next" and len(node.args) in (1, 2) and not node.keywords and isinstance(node.args[0], ast.GeneratorExp)):
+            return None
+        ge = node.args[0]
+        if len(ge.generators) != 1:
+            return None
+        g = ge.generators[0]
+        it = g.iter
+        if not (isinstance(it, ast.Call) and isinstance(it.func, ast.Name) and it.func.id == "enumerate" and len(it.args) == 1 and not it.keywords):
+            return None
+        if not (isinstance(g.target, ast.Tuple) and len(g.target.elts) == 2 and all(isinstance(e, ast.Name) for e in g.target.elts) and len(g.ifs) == 1 and not g.is_async):
+            return None
+        idx, ch = g.target.elts[0].id, g.target.elts[1].id
+        c = g.ifs[0]
+        if not (isinstance(ge.elt, ast.Name) and ge.elt.id == idx and isinstance(c, ast.Compare) and len(c.ops) == 1 and isinstance(c.ops[0], ast.Eq)
+                and isinstance(c.left, ast.Name) and c.left.id == ch and isinstance(c.comparators[0], ast.Constant) and isinstance(c.comparators[0].value, str)
+                and len(c.comparators[0].value) == 1):
+            return None
+        return it.args[0], c.comparators[0].value
+
+    def ev_first_index(self, node, xnode, ch, st):
+        """the index of the first occurrence of a character, written as a generator over enumerate(text): decided on the literal skeleton of the text"""
+        def after(x, s):
+            if isinstance(x, str):
+                j = x.find(ch)
+                if j >= 0:
+                    return [(j, s)]
+                return self.ev(node.args[1], s) if len(node.args) == 2 else [(Raise(Exc("StopIteration", "")), s)]
+            if not (isinstance(x, Sym) and x.ty == "str"):
+                raise Unsupported("first-index generator over %r" % (x,))
+            ps = structstr.parts(x.t)
+
+            def absent(sy):
+                if smt.quick_check(s.pc, z3.Contains(sy, z3.StringVal(ch))) == "unsat":
+                    return True
+                # DOMAIN RESTRICTION (stated in the evidence and in the contract's note): the symbolic holes that come before the skeleton's own occurrence of the
+                # character are taken not to contain it - e.g. a Google type text without a colon; texts that do are not explored by this case (bounded rt)
+                s.pc.append(z3.Not(z3.Contains(sy, z3.StringVal(ch))))
+                self.assumed.add("first-index generator (`next(idx for idx, ch in enumerate(text) if ch == %r)`): explored for texts whose symbolic holes before the "
+                                 "skeleton's own %r do not contain it; other texts are outside this case" % (ch, ch))
+                return True
+
+            r = structstr.first_index(ps, ch, absent)
+            if r is None:
+                raise Unsupported("first-index generator over a text whose symbolic parts may contain the character")
+            if r[0] == "none":
+                return self.ev(node.args[1], s) if len(node.args) == 2 else [(Raise(Exc("StopIteration", "")), s)]
+            off = structstr.offset_term(ps, r[1], r[2])
+            return [(off if isinstance(off, int) else Sym(off, "int"), s)]
+
+        return self.bind(self.ev(xnode, st), after)
+
     def ev_Call(self, node, st):
+        fi = self._first_index_pattern(node)
+        if fi is not None and self.mode != "concrete":
+            return self.ev_first_index(node, fi[0], fi[1], st)
         if self.opaque:
             try:
                 ftxt = ast.unparse(node.func)
@@ -1227,7 +1300,10 @@ class Engine:
                     elif kind == "raise":
                         res.append((Raise(val), s))
                     elif kind == "abort":
-                        raise Unsupported("%s (in %s)" % (val, fn.name))
+                        if self.mode == "exec" and self.abort_paths:
+                            res.append((Raise(Exc("<abort>", "%s (in %s)" % (val, fn.name))), s))
+                        else:
+                            raise Unsupported("%s (in %s)" % (val, fn.name))
                     else:
                         raise Unsupported("break/continue escaping a function: %s in %s" % (kind, fn.name))
         finally:
@@ -1392,6 +1468,7 @@ class Engine:
                         res = [("abort", str(e), snap)]
                 else:
                     res = self.exec_stmt(stmt, s)
+                res = [("abort", v2.msg, s2) if k2 == "raise" and getattr(v2, "kind", None) == "<abort>" else (k2, v2, s2) for k2, v2, s2 in res]
                 stop = False
                 if self.stop_after and len(self.frames) == 1:
                     try:
